@@ -88,7 +88,23 @@ class Node:
     def __str__(self):
         if isinstance(self.data, str):
             return self.data
-        return '(' + ' '.join(map(str, self.data)) + ')'
+        # explicit stack: nodes may be nested arbitrarily deep
+        res = []
+        visit = [self]
+        while visit:
+            expr = visit.pop()
+            if isinstance(expr, str):
+                res.append(expr)
+            elif expr.is_leaf():
+                res.append(expr.data)
+            else:
+                visit.append(')')
+                for i, child in enumerate(reversed(expr.data)):
+                    if i > 0:
+                        visit.append(' ')
+                    visit.append(child)
+                visit.append('(')
+        return ''.join(res)
 
     def __repr__(self):
         if isinstance(self.data, str):
